@@ -289,6 +289,10 @@ def _write(fmt, delim, table, fn, p):
         from PIL import Image
 
         Image.fromarray(a.astype(np.uint8), mode="L").save(fn)
+    elif fmt in ("jpg", "jpeg"):          # lossy: only uniform grey pictures come back exactly
+        from PIL import Image
+
+        Image.fromarray(a.astype(np.uint8), mode="L").save(fn, quality=100)
     elif fmt == "xlsx":
         import pandas as pd
 
@@ -313,7 +317,7 @@ def _write(fmt, delim, table, fn, p):
 
 def handle_roundtrip(p):
     ext = {"npy": ".npy", "fits": ".fits", "fitstable": ".fits", "txt": ".txt", "data": ".data", "csv": ".csv",
-           "png": ".png", "bmp": ".bmp", "tiff": ".tiff", "tif": ".tif", "xlsx": ".xlsx"}[p["fmt"]]
+           "png": ".png", "bmp": ".bmp", "tiff": ".tiff", "tif": ".tif", "xlsx": ".xlsx", "jpg": ".jpg", "jpeg": ".jpeg"}[p["fmt"]]
     if p.get("upper"):
         ext = ext.upper()
     fn = _unique("rt", ext)
